@@ -115,6 +115,7 @@ type Machine struct {
 	yieldCount int
 	poolSeq    int
 	lastNow    *term.Term
+	schedPos   int
 	proved     map[*term.Term]bool // conditions implied by the path condition (which only grows)
 	doneCh     chan struct{}
 	wg         sync.WaitGroup
